@@ -3,6 +3,7 @@
 //! The harness never decides a verdict.
 mod alloc;
 mod codec;
+mod drv_async;
 mod drv_paths;
 mod drv_reader;
 mod drv_writer;
@@ -36,6 +37,7 @@ fn main() {
     match driver {
         "codec" => codec::run(&mut out, seed, thorough),
         "paths" => drv_paths::run(&mut out, seed, thorough),
+        "async" => drv_async::run(&mut out, seed, thorough),
         "paths_exhaustive" => drv_paths::exhaustive(&mut out, seed, if thorough { 1 } else { 8 }),
         d if d.starts_with("writer:") => drv_writer::run(&mut out, &d[7..], seed, thorough),
         "reader:replay" => drv_reader::replay(&mut out, &arg(&args, "--in").expect("--in FILE")),
